@@ -23,7 +23,7 @@ def callee_path(t):
     return (t.get("resolved") or t.get("callee") or {}).get("path", "?")
 
 
-def trace(body, op, limit=40):
+def trace(body, op, limit=40, _depth=0):
     """-> (steps, terminal) ; steps: list of ('call', path, argindex) / ('wrap', adt::variant) / ('proj', text)
     terminal: ('arg', local, projection-text) | ('const', ..) | ('call', path) for a call with no traced argument
     | ('unknown', why)"""
@@ -39,12 +39,40 @@ def trace(body, op, limit=40):
         ptxt = "".join("*" if p["k"] == "deref" else ".%s" % p.get("i") if p["k"] == "field" else "[%s]" % p["k"] for p in proj)
         if 1 <= l <= body["arg_count"]:
             return steps, ("arg", l, ptxt)
-        if any(p["k"] not in ("deref", "field") for p in proj):
+        if any(p["k"] not in ("deref", "field", "downcast") for p in proj):
             return steps, ("unknown", "projection " + ptxt)
         ds = defs.get(l, [])
+        if len(ds) > 1 and _depth < 3:
+            # a value merged from the arms of a match / if: follow the one arm that carries data when all the
+            # others only produce a default (spelled-out unwrap_or_default / unwrap_or(Vec::new()))
+            real = []
+            for kind_, d_ in ds:
+                if kind_ == "call":
+                    pth = callee_path(d_)
+                    if not d_["args"] and (pth.endswith("::new") or pth.endswith("::default")):
+                        continue
+                    sub = trace(body, d_["args"][0], limit, _depth + 1) if d_["args"] else ([], ("call", pth))
+                    real.append(([("call", pth, len(d_["args"]))] + sub[0], sub[1]))
+                else:
+                    rv_ = d_["rv"]
+                    if rv_["k"] == "use" and rv_["op"]["k"] == "const":
+                        continue
+                    if rv_["k"] == "use":
+                        real.append(trace(body, rv_["op"], limit, _depth + 1))
+                    else:
+                        real.append(([], ("unknown", "rvalue " + rv_["k"])))
+            if len(real) == 1:
+                steps.append(("alt-default", len(ds) - 1))
+                steps.extend(real[0][0])
+                return steps, real[0][1]
+            return steps, ("unknown", "local _%d has %d definitions" % (l, len(ds)))
         if len(ds) != 1:
             return steps, ("unknown", "local _%d has %d definitions" % (l, len(ds)))
         kind, d = ds[0]
+        if any(p["k"] == "downcast" for p in proj):
+            # the payload of a matched Ok / Some: the value itself
+            steps.append(("unwrap-arm", ptxt))
+            proj = [p for p in proj if p["k"] not in ("downcast", "field")]
         fields = [p for p in proj if p["k"] == "field"]
         if fields:
             # a field of a locally built aggregate (tuple / struct literal): follow that operand
